@@ -281,6 +281,18 @@ def infoOfJson (j : Json) : R (String → String → StrInfo) := do
     | none => { hasLu := false, hasLl := false, latin1 := true, regexOk := none }
 
 open Edxml.Gate in
+/-- base64: encode octet strings, decode accepted strings, say whether a string is in the value space -/
+def opB64 (j : Json) : R Json := do
+  let bytes ← (← fldArr j "bytes").mapM fun l => do (← arr l).mapM fun x => x.getNat?
+  let strings ← fldStrs j "strings"
+  let maxLen ← fldNat j "maxLen"
+  pure (Json.mkObj [
+    ("enc", Json.arr (bytes.map fun bs => Json.str (String.ofList (b64Encode bs))).toArray),
+    ("accepted", Json.arr (strings.map fun s => Json.bool (acceptsBase64 maxLen s.toList)).toArray),
+    ("dec", Json.arr (strings.map fun s =>
+      if acceptsBase64 0 s.toList then Json.arr ((b64Decode s.toList).map fun (n : Nat) => Json.num (JsonNumber.fromNat n)).toArray else Json.null).toArray)])
+
+open Edxml.Gate in
 def opGate (j : Json) : R Json := do
   let ops ← (← fldArr j "hist").mapM fun o => do
     match ← fldStr o "k" with
@@ -644,6 +656,7 @@ def dispatch (j : Json) : R Json := do
   | "update" => opUpdate j
   | "xmed" => opXmed j
   | "gate" => opGate j
+  | "b64" => opB64 j
   | "norm" => opNorm j
   | "compat" => opCompat j
   | "evops" => opEvOps j
